@@ -143,9 +143,9 @@ def readV (rd : String → Option α) (w : String) : Option (Option α) := if w 
 
 def obs? (rd : String → Option α) (s : String) : Option (WObs (Option α)) :=
   match s.splitOn "," with
-  | [x, y, z, yr, mo, d, h, mi, sc, ms] =>
-    match readV rd x, readV rd y, readV rd z, yr.toNat?, mo.toNat?, [d, h, mi, sc, ms].mapM String.toInt? with
-    | some x, some y, some z, some yr, some mo, some [d, h, mi, sc, ms] => some ⟨x, y, z, ⟨yr, mo, d, h, mi, sc, ms⟩, []⟩
+  | [x, y, z, yr, mo, d, h, mi, sc, ms, zone] =>
+    match readV rd x, readV rd y, readV rd z, yr.toNat?, mo.toNat?, [d, h, mi, sc, ms, zone].mapM String.toInt? with
+    | some x, some y, some z, some yr, some mo, some [d, h, mi, sc, ms, zone] => some ⟨x, y, z, ⟨yr, mo, d, h, mi, sc, ms⟩, [], zone⟩
     | _, _, _, _, _, _ => none
   | _ => none
 
@@ -153,6 +153,8 @@ def wop? (rd : String → Option α) (s : String) : Option (WOp (Option α)) :=
   match s.splitOn ":" with
   | ["a", k] => k.toNat?.map .absCurv
   | ["s", k] => k.toNat?.map .speed
+  | ["S", k] => k.toNat?.map .speedMethod
+  | ["tz", k, zone] => match k.toNat?, zone.toInt? with | some k, some zone => some (.setZone k zone) | _, _ => none
   | ["f", k] => k.toNat?.map .speedAF
   | ["d", k] => k.toNat?.map .dsAF
   | ["I", k] => k.toNat?.map .integ
@@ -202,11 +204,11 @@ def showTable (sh : α → String) (g : GOps (Option α)) (w : World (Option α)
 
 def showHeap (sh : α → String) (w : World (Option α)) : String :=
   joinWith ";" (w.heap.map fun ob =>
-    s!"{showV sh ob.x},{showV sh ob.y},{showV sh ob.z},{ob.t.year},{ob.t.month},{ob.t.day},{ob.t.hour},{ob.t.min},{ob.t.sec},{ob.t.ms},{ob.feats.length}")
+    s!"{showV sh ob.x},{showV sh ob.y},{showV sh ob.z},{ob.t.year},{ob.t.month},{ob.t.day},{ob.t.hour},{ob.t.min},{ob.t.sec},{ob.t.ms},{ob.feats.length},{ob.zone}")
 
 /-- does the operation take square roots of distances between fixes of its track -/
 def geometric : WOp (Option α) → Bool
-  | .absCurv _ | .speed _ | .speedAF _ | .dsAF _ | .length _ | .curvAbs _ => true
+  | .absCurv _ | .speed _ | .speedMethod _ | .speedAF _ | .dsAF _ | .length _ | .curvAbs _ => true
   | _ => false
 
 def runWorld (g : GOps (Option α)) (sh : α → String) (ok : World (Option α) → Bool) :
